@@ -317,7 +317,9 @@ def body_order_independent(i: int) -> bool:
 
 MSG_SELS = ["/python-dev.mbox|/MBOX-MESSAGE/%s" % n for n in ["0", "1", "2", "6", "7", "8", "9999", "-1", "1x", ""]] + \
            ["/nonexistent|/MBOX-MESSAGE/1", "/testfile.txt|/MBOX-MESSAGE/1", "/pygopherd|/MBOX-MESSAGE/1", "/python-dev|/MAILDIR-MESSAGE/1",
-            "/python-dev|/MAILDIR-MESSAGE/9999", "/nonexistent|/MAILDIR-MESSAGE/1", "/testfile.txt|/MAILDIR-MESSAGE/1", "/python-dev.mbox|/MAILDIR-MESSAGE/1"]
+            "/python-dev|/MAILDIR-MESSAGE/9999", "/nonexistent|/MAILDIR-MESSAGE/1", "/testfile.txt|/MAILDIR-MESSAGE/1", "/python-dev.mbox|/MAILDIR-MESSAGE/1",
+            # folders (and messages) of mailboxes in which one message has no header lines at all
+            "/vkfix/headerless.mbox", "/vkfix/headerless.mbox|/MBOX-MESSAGE/2", "/vkfix/md", "/vkfix/md|/MAILDIR-MESSAGE/1"]
 
 
 def body_message(sidx: int, kind: int) -> bool:
